@@ -42,6 +42,57 @@ structure Filled where
 /-- `a..b` -/
 def rng (a b : Nat) : List Nat := List.range' a (b - a)
 
+/-- values and traceback fields of one cell -/
+structure CellOut where
+  s : Int
+  i : Int
+  d : Int
+  ts : Tb
+  ti : Tb
+  td : Tb
+
+/-- `best_i_score` and the I field: extend the insertion of the row above (`i_score`), open one after `S[curr][i-1]`
+(`s_score`, the I field then copies the S field of `(i-1, j)`), or - last column only - continue after the suffix clip (y)
+tracked in `Sn[i-1]` (`clip_score`) -/
+def pickI (sc : Sc) (iUp sUp : Int) (tsUp : Tb) (clipI : Option Int) : Int × Tb :=
+  let i_score := iUp + sc.ge
+  let s_score := sUp + sc.go + sc.ge
+  let bi : Int × Tb := if i_score > s_score then (i_score, .ins) else (s_score, tsUp)
+  match clipI with
+  | some c => if c > bi.1 then (c, .ysuf) else bi
+  | none => bi
+
+/-- `best_d_score` and the D field -/
+def pickD (sc : Sc) (dLeft sLeft gox : Int) (tsLeft : Tb) : Int × Tb :=
+  let d_score := dLeft + sc.ge
+  let s_score := sLeft + gox + sc.ge
+  if d_score > s_score then (d_score, .del) else (s_score, tsLeft)
+
+/-- `best_s_score` and the S field: the candidates in the order of the Rust text, each replacing the current best only
+when strictly better -/
+def pickS (isM eq : Bool) (m_score base bi bd xclip yclip : Int) : Int × Tb :=
+  let bs : Int × Tb := (base, if isM then .xsuf else .start)
+  let bs : Int × Tb := if m_score > bs.1 then (m_score, if eq then .mat else .subst) else bs
+  let bs : Int × Tb := if bi > bs.1 then (bi, .ins) else bs
+  let bs : Int × Tb := if bd > bs.1 then (bd, .del) else bs
+  let bs : Int × Tb := if xclip > bs.1 then (xclip, .xpre) else bs
+  if yclip > bs.1 then (yclip, .ypre) else bs
+
+/-- One in-band cell `(i, j)`, `i ≥ 1`, `j ≥ 1`, of the main loop of `compute_alignment` as a function of what the loop
+body reads: `sDiag = S[prev][i-1]`, `iUp = I[curr][i-1]`, `sUp = S[curr][i-1]`, `dLeft = D[prev][i]`,
+`sLeft = S[prev][i]`, `base` = `S[curr][i]` after `if i == m { … } else { S[curr][i] = MIN_SCORE }`, `tsUp`/`tsLeft` = the
+S fields of `(i-1, j)` / `(i, j-1)`, `clipI` = `clip_score` of the last column (`none` for `j < n`), `gox` = the gap-open
+charged for a deletion after `S[prev][i]` (`gap_open`, or `gap_open_after_xclip(m, j - 1)` in row m), `w` = the
+substitution score of the two symbols (`eq`: they are equal), `xclip`/`yclip` = `xclip_score`/`yclip_score`.
+`fill` calls this function; `Lemmas/BandedSound.lean` proves that it maps junk-or-witnessed inputs to junk-or-witnessed
+outputs. -/
+def cellStep (sc : Sc) (isM eq : Bool) (w sDiag iUp sUp dLeft sLeft base : Int) (tsUp tsLeft : Tb)
+    (clipI : Option Int) (gox xclip yclip : Int) : CellOut :=
+  let bi := pickI sc iUp sUp tsUp clipI
+  let bd := pickD sc dLeft sLeft gox tsLeft
+  let bs := pickS isM eq (sDiag + w) base bi.1 bd.1 xclip yclip
+  ⟨bs.1, bi.1, bd.1, bs.2, bi.2, bd.2⟩
+
 /-- the fill of `compute_alignment` for `m, n ≥ 1` (`rg` = `band.ranges`) -/
 def fill (sc : Sc) (cl : Clip) (x y : Array Nat) (rg : Array (Nat × Nat)) : Filled := Id.run do
   let m := x.size
@@ -167,57 +218,26 @@ def fill (sc : Sc) (cl : Clip) (x y : Array Nat) (rg : Array (Nat × Nat)) : Fil
     let xclip_score := xp + max (if j = n then max yp (Sn.getD 0 MIN) else yp) (go + ge * (j : Int))
     for i in rng (max 1 i_start) i_end do
       let p := x.getD (i - 1) 0
-      let mut ts : Tb := .start
-      let mut ti : Tb := .start
-      let mut td : Tb := .start
-      let m_score := S.getD (prev * rows + (i - 1)) MIN + sc.w p q
-      let i_score := I.getD (curr * rows + (i - 1)) MIN + ge
-      let s_score := S.getD (curr * rows + (i - 1)) MIN + go + ge
-      let mut best_i_score : Int := 0
-      if i_score > s_score then
-        best_i_score := i_score
-        ti := .ins
-      else
-        best_i_score := s_score
-        ti := tS.getD ((i - 1) * cols + j) .start
-      if j = n then
-        let clip_score := Sn.getD (i - 1) MIN + go + ge
-        if clip_score > best_i_score then
-          best_i_score := clip_score
-          ti := .ysuf
-      let d_score := D.getD (prev * rows + i) MIN + ge
-      let s_score := S.getD (prev * rows + i) MIN + go + ge
-      let mut best_d_score : Int := 0
-      if d_score > s_score then
-        best_d_score := d_score
-        td := .del
-      else
-        best_d_score := s_score
-        td := tS.getD (i * cols + (j - 1)) .start
-      if i = m then
-        ts := .xsuf
-      else
-        S := S.setIfInBounds (curr * rows + i) MIN
-      let mut best_s_score := S.getD (curr * rows + i) MIN
-      if m_score > best_s_score then
-        best_s_score := m_score
-        ts := if p = q then .mat else .subst
-      if best_i_score > best_s_score then
-        best_s_score := best_i_score
-        ts := .ins
-      if best_d_score > best_s_score then
-        best_s_score := best_d_score
-        ts := .del
-      if xclip_score > best_s_score then
-        best_s_score := xclip_score
-        ts := .xpre
+      -- gap_open_after_yclip(i - 1, n): the clipped path of `Sn[i-1]` ends with an insertion ⇒ same gap, no gap_open
+      let go_y := if tS.getD ((i - 1) * cols + (n - Ly.getD (i - 1) 0)) .start = .ins then 0 else go
+      let clipI : Option Int := if j = n then some (Sn.getD (i - 1) MIN + go_y + ge) else none
+      -- gap_open_after_xclip(m, j - 1): row m of the previous column is a suffix clip (x) of a path ending with a deletion
+      let go_x := if i = m then
+          (if tS.getD (m * cols + (j - 1)) .start = .xsuf ∧
+              tS.getD ((m - Lx.getD (j - 1) 0) * cols + (j - 1)) .start = .del then 0 else go)
+        else go
       let yclip_score := yp + go + ge * (i : Int)
-      if yclip_score > best_s_score then
-        best_s_score := yclip_score
-        ts := .ypre
-      S := S.setIfInBounds (curr * rows + i) best_s_score
-      I := I.setIfInBounds (curr * rows + i) best_i_score
-      D := D.setIfInBounds (curr * rows + i) best_d_score
+      let c := cellStep sc (i = m) (p = q) (sc.w p q)
+        (S.getD (prev * rows + (i - 1)) MIN) (I.getD (curr * rows + (i - 1)) MIN) (S.getD (curr * rows + (i - 1)) MIN)
+        (D.getD (prev * rows + i) MIN) (S.getD (prev * rows + i) MIN)
+        (if i = m then S.getD (curr * rows + i) MIN else MIN)
+        (tS.getD ((i - 1) * cols + j) .start) (tS.getD (i * cols + (j - 1)) .start) clipI go_x xclip_score yclip_score
+      let ts := c.ts
+      let ti := c.ti
+      let td := c.td
+      S := S.setIfInBounds (curr * rows + i) c.s
+      I := I.setIfInBounds (curr * rows + i) c.i
+      D := D.setIfInBounds (curr * rows + i) c.d
       -- Track the score if we do suffix clip (x) from here
       if S.getD (curr * rows + i) MIN + xs > S.getD (curr * rows + m) MIN then
         S := S.setIfInBounds (curr * rows + m) (S.getD (curr * rows + i) MIN + xs)
@@ -259,7 +279,10 @@ def fill (sc : Sc) (cl : Clip) (x y : Array Nat) (rg : Array (Nat × Nat)) : Fil
       tS := tS.setIfInBounds (m * cols + j) .xsuf
   -- ---------------------------------------------------------------- recompute the last column of I
   for i in rng (max 1 (rgS n)) (rgE n) do
-    let s_score := S.getD (curr * rows + (i - 1)) MIN + go + ge
+    let go_y := if tS.getD ((i - 1) * cols + j) .start = .ysuf then
+        (if tS.getD ((i - 1) * cols + (n - Ly.getD (i - 1) 0)) .start = .ins then 0 else go)
+      else go
+    let s_score := S.getD (curr * rows + (i - 1)) MIN + go_y + ge
     if s_score > I.getD (curr * rows + i) MIN then
       I := I.setIfInBounds (curr * rows + i) s_score
       let s_bit := tS.getD ((i - 1) * cols + j) .start
